@@ -37,6 +37,8 @@ var versions = []ver{
 	{"1.0.0-rc.1", 6, false}, {"1.0.0", 7, false}, {"1.0.0+build", 7, false}, {"1.0.0+zzz.9", 7, false}, {"1.0.1", 8, false}, {"1.2.0", 9, false}, {"1.9.0", 10, false}, {"1.10.0", 11, false},
 	{"2.0.0-0", 12, false}, {"2.0.0", 13, false}, {"10.0.0", 14, false},
 	{"1", -1, false}, {"v1.0.0", -1, false}, {"1.0", -1, false}, {"01.0.0", -1, false}, {"1.0.0-", -1, false}, {"latest", -1, false},
+	// numeric pre-release identifiers with a leading zero are no semantic versions (and no precedence rule knows them)
+	{"1.0.0-01", -1, false}, {"2.0.0-rc.01", -1, false}, {"1.0.0-0.00", -1, false},
 }
 
 // scriptEmptyField: complete metadata in which ONE mandatory field is present but empty ("" / []).
@@ -107,7 +109,7 @@ var shapes = []string{"file", "file", "dir", "dir-nonexec", "dir-extra-before", 
 
 func main() {
 	r := lib.Start("C20", "exploration")
-	r.Rule = "PRNG sequences of up to 6 install/uninstall operations over 2 plugin names x 23 versions (17 in precedence order incl. pre-release/build metadata/numeric-vs-lexical traps, 6 invalid) x overwrite x 25 source shapes (file; sub-directory named like the source; symlinked candidate; group-only execute bits; file whose name differs from the reported name in letter case only; symbolic link to the file; directory with executable / single non-executable candidate, extra files sorting before and after, sub-directories incl. one holding a same-named executable, symlink, two candidates, none; invalid / misnamed metadata; non-executable file); distinct by (sequence, step); non-trivial = install onto an existing plugin, or from a directory source"
+	r.Rule = "PRNG sequences of up to 6 install/uninstall operations over 3 plugin names x 26 versions (17 in precedence order incl. pre-release/build metadata/numeric-vs-lexical traps, 9 invalid) x overwrite x 25 source shapes (file; sub-directory named like the source; symlinked candidate; group-only execute bits; file whose name differs from the reported name in letter case only; symbolic link to the file; directory with executable / single non-executable candidate, extra files sorting before and after, sub-directories incl. one holding a same-named executable, symlink, two candidates, none; invalid / misnamed metadata; non-executable file); distinct by (sequence, step); non-trivial = install onto an existing plugin, or from a directory source"
 	r.Rule += "; plus stray entries in the plugin root, damaged installed plugins (failing, missing, hanging, interpreter gone), relative source paths with a decoy on PATH (helper process), .exe names, dot-files, metadata followed by further output"
 	r.Assumptions = []string{"plugins are /bin/sh scripts printing embedded metadata (benign names only)",
 		"first-time installation of a plugin whose version is not a semantic version is not judged (nothing is replaced)",
@@ -260,7 +262,7 @@ func runSequence(ctx context.Context, r *lib.Run, seq int, pending *[]func()) (b
 		}
 		nops := 2 + rng.Intn(5)
 		for op := 0; op < nops; op++ {
-			name := []string{"foo", "bar"}[rng.Intn(2)]
+			name := []string{"foo", "bar", "foo", "bar", "kv+hsm"}[rng.Intn(5)] // (a name is any single path component)
 			resync := false
 			if in := model[name]; in != nil && in.damaged == "" && rng.Intn(9) == 0 {
 				// damage the installed plugin behind the manager's back: a malfunctioning executable, or a left-over
